@@ -5,11 +5,6 @@ boc/immutable_cell.go shared with C02: for a tree whose cells all have level mas
 whose depth does not exceed Go's limit, `Cell.reprHash H c = ok (c.hashO H)`. -/
 namespace Tongo
 
-instance : LawfulMonad Outcome := LawfulMonad.mk' (m := Outcome)
-  (id_map := fun x => by cases x <;> rfl)
-  (pure_bind := fun _ _ => rfl)
-  (bind_assoc := fun x _ _ => by cases x <;> rfl)
-
 /-- what `newImmutableCell` keeps for a level-0 cell -/
 def Cell.infoO (H : List UInt8 → List UInt8) (c : Cell) : HashInfo :=
   { ty := c.ty, mask := 0, buf := parsedBuf c.bits, hashes := [c.hashO H], depths := [c.depthO] }
